@@ -549,7 +549,10 @@ fn table() -> &'static Table {
                     continue;
                 }
                 let es = plausible_errnos(*n);
-                cases.push((i, Some(Plan { side: Side::Child, index: idx as u32, errno: es[0] }), false));
+                // the child side of spawn: every plausible errno too (the statement's quantifier says so)
+                for &e in es {
+                    cases.push((i, Some(Plan { side: Side::Child, index: idx as u32, errno: e }), false));
+                }
             }
         }
         Table { cases }
